@@ -101,11 +101,19 @@ func (P *Prog) acceptedKinds(fn *ssa.Function) (kindTable, bool, string) {
 		}
 		cond := ""
 		for _, c := range p.conds {
-			if c.Pred.Op == "binop" && c.Pred.S == "<" && !c.Val && c.Pred.Args[0].eq(val) && c.Pred.Args[1].String() == "0" {
-				cond = "nonneg"
+			mentions := c.Pred.contains(func(u *Term) bool { return u.eq(val) })
+			if !mentions || (c.Pred.Op == "res" && c.Pred.S == "1") {
+				continue
 			}
-			if c.Pred.Op == "binop" && c.Pred.S == "==" && !c.Val && ((c.Pred.Args[0].eq(val) && c.Pred.Args[1].Op == "nil") || (c.Pred.Args[1].eq(val) && c.Pred.Args[0].Op == "nil")) {
+			switch {
+			case c.Pred.Op == "binop" && c.Pred.S == "<" && !c.Val && c.Pred.Args[0].eq(val) && c.Pred.Args[1].String() == "0":
+				cond = "nonneg"
+			case c.Pred.Op == "binop" && c.Pred.S == "==" && !c.Val && ((c.Pred.Args[0].eq(val) && c.Pred.Args[1].Op == "nil") || (c.Pred.Args[1].eq(val) && c.Pred.Args[0].Op == "nil")):
 				cond = "nonnil"
+			case c.Pred.Op == "binop" && (c.Pred.S == "<" || c.Pred.S == "<=") && !c.Val && c.Pred.Args[1].eq(val) && bigConst(c.Pred.Args[0]):
+				// refusing values beyond int64 leaves every representable label alone
+			default:
+				cond = "other:" + c.String()
 			}
 		}
 		if old, seen := kt[typ]; seen && old != cond {
@@ -428,3 +436,20 @@ func checkCountersigValuePredicate(r *Report, rule string) map[*ssa.Function]boo
 }
 
 func itoa(n int64) string { return strconv.FormatInt(n, 10) }
+
+// bigConst: an integer constant >= math.MaxInt64.
+func bigConst(t *Term) bool {
+	if t.Op != "const" {
+		return false
+	}
+	s := strings.TrimPrefix(t.S, "+")
+	if len(s) < 19 || strings.HasPrefix(s, "-") {
+		return false
+	}
+	for _, ch := range s {
+		if ch < '0' || ch > '9' {
+			return false
+		}
+	}
+	return len(s) > 19 || s >= "9223372036854775807"
+}
